@@ -22,7 +22,9 @@ from . import _c35_nft as NFT
 
 ID = "C35"
 LEAN_MODULES = ["NiftyVerif.Props.C35", "NiftyVerif.Model.LinOpsProto", "NiftyVerif.Model.Response",
-                "NiftyVerif.Model.ResponseLos", "NiftyVerif.Model.Nft", "NiftyVerif.Model.NftProto"]
+                "NiftyVerif.Model.ResponseLos", "NiftyVerif.Model.Nft", "NiftyVerif.Model.NftProto",
+                "NiftyVerif.Model.ResponseProto", "NiftyVerif.Model.Coo", "NiftyVerif.Model.CQ", "NiftyVerif.Model.LinOps",
+                "NiftyVerif.Core.Proto"]
 DRIVER = "Driver/C35.lean"
 TRANSLATORS = []
 OBLIGATIONS = ["NiftyVerif.C35." + t for t in (
@@ -31,6 +33,7 @@ OBLIGATIONS = ["NiftyVerif.C35." + t for t in (
     "mask_adjoint_zero_fill", "los_weights_sum", "los_outside_empty",
     "los_traverse_refines", "los_traverse_refines_zero", "los_traverse_weights_sum", "los_traverse_weights_nonneg",
     "los_traverse_steps", "los_traverse_first_pixel", "los_clip_inside", "los_clip_eq_clipBox", "los_traverse_refines_losRow",
+    "los_traverse_in_grid",
     "nft_adjoint", "nft_mono_apply_spec", "nft_on_grid_is_dft", "nft_on_grid_is_dft_nd", "nft_shift", "nft_entry_is_phase")]
 RULE = ("one case = (operator class, generated grid / sampling points / line segments / positions / mask / accuracy); "
         "non-trivial = the operator has at least one non-zero weight; distinct by canonical JSON of the case")
@@ -696,10 +699,30 @@ def _lattice_process(ctx, cases, outs):
             ctx.counterexample(case, r[0], r[1])
 
 
+def _corpus35(pred):
+    import glob
+    import os
+    from core.ctx import VERIF
+    out = []
+    for p in sorted(glob.glob(os.path.join(VERIF, "corpus", ID, "*.json"))):
+        try:
+            d = json.load(open(p))
+            c = d.get("case", d)
+            if pred(c):
+                out.append(c)
+        except Exception:
+            pass
+    return out
+
+
 def _run_los_and_lattice(ctx, nlos, nlat):
-    """one driver call for both streams (every `lean --run` start costs seconds)"""
+    """one driver call for both streams (every `lean --run` start costs seconds); corpus cases first"""
     lc = _los_cases(ctx, nlos)
     nc = [NFT.gen_lattice(ctx.rng) for _ in range(nlat)]
+    if nlos:
+        lc = [dict(c, eps=LOS_EPS) for c in _corpus35(lambda c: c.get("cls") == "LOSResponse")] + lc
+    if nlat:
+        nc = _corpus35(lambda c: c.get("lattice") is True) + nc
     outs = ctx.model(DRIVER, lc + [NFT.model_line(c) for c in nc])
     _los_process(ctx, lc, outs[:len(lc)])
     _lattice_process(ctx, nc, outs[len(lc):])
